@@ -156,9 +156,10 @@ theorem tryFrom_all_fail (c : Cfg) (r : Req) (ws : List Wire) :
 
 def reqOf (H : Nat → Nat) (legacy : Bool) (nonce ed : Nat) : Req := ⟨legacy, nonce, if legacy then ed else H ed⟩
 
-/-- what the post-attachment self-check establishes: the token covers this very signature value -/
+/-- what the post-attachment self-check establishes: the token covers this very signature value, its own
+messageDigest attribute matches that content (`mdOK`) and its signature verifies (`sigOK`) -/
 def Covers (H : Nat → Nat) (t : Token) (ed : Nat) : Prop :=
-  t.sigOK = true ∧ ((∃ i, t.content = .tst i ∧ i.imprint = H ed ∧ i.algOK = true) ∨ t.content = .data ed)
+  t.sigOK = true ∧ t.mdOK = true ∧ ((∃ i, t.content = .tst i ∧ i.imprint = H ed ∧ i.algOK = true) ∨ t.content = .data ed)
 
 theorem verifyRfc_covers {H g t ed cs} (h : verifyRfcToken H g t ed = .ok cs) :
     Covers H t ed ∧ cs.cert = t.tsa ∧ ∃ i, t.content = .tst i ∧ cs.time = i.time := by
@@ -168,7 +169,8 @@ theorem verifyRfc_covers {H g t ed cs} (h : verifyRfcToken H g t ed = .ok cs) :
   rename_i i hu
   split at h <;> try (simp at h; done)
   split at h <;> try (simp at h; done)
-  rename_i himp hsig
+  split at h <;> try (simp at h; done)
+  rename_i himp hmd hsig
   have hcont : t.content = .tst i := by
     unfold unpack at hu
     split at hu <;> (try split at hu) <;> simp_all
@@ -177,7 +179,7 @@ theorem verifyRfc_covers {H g t ed cs} (h : verifyRfcToken H g t ed = .ok cs) :
     constructor
     · cases ha : i.algOK <;> simp_all
     · apply Classical.byContradiction; intro hne; exact himp (Or.inr hne)
-  refine ⟨⟨by simpa using hsig, Or.inl ⟨i, hcont, himp'.2, himp'.1⟩⟩, by simp [hcs], i, hcont, by simp [hcs]⟩
+  refine ⟨⟨by simpa using hsig, by simpa using hmd, Or.inl ⟨i, hcont, himp'.2, himp'.1⟩⟩, by simp [hcs], i, hcont, by simp [hcs]⟩
 
 theorem verifyMs_covers {H : Nat → Nat} {t ed cs} (h : verifyMsToken t ed = .ok cs) : Covers H t ed ∧ cs.cert = t.tsa := by
   simp only [verifyMsToken, p7Verify] at h
@@ -186,13 +188,14 @@ theorem verifyMs_covers {H : Nat → Nat} {t ed cs} (h : verifyMsToken t ed = .o
   split at hp <;> try (simp at hp; done)
   split at hp <;> try (simp at hp; done)
   split at hp <;> try (simp at hp; done)
-  rename_i _ _ hso
+  split at hp <;> try (simp at hp; done)
+  rename_i _ _ hmd hso
   split at h <;> try (simp at h; done)
   rename_i hd
   split at h <;> try (simp at h; done)
   have hcs : cs.cert = t.tsa := by
     have := h; simp at this; rw [← this]
-  exact ⟨⟨by simpa using hso, Or.inr (by simpa using hd)⟩, hcs⟩
+  exact ⟨⟨by simpa using hso, by simpa using hmd, Or.inr (by simpa using hd)⟩, hcs⟩
 
 theorem verifyCs_covers {H : Nat → Nat} {t ed cs} (h : verifyCounterSign t ed = .ok cs) : Covers H t ed ∧ cs.cert = t.tsa := by
   simp only [verifyCounterSign] at h
@@ -203,7 +206,13 @@ theorem verifyCs_covers {H : Nat → Nat} {t ed cs} (h : verifyCounterSign t ed 
   split at h <;> try (simp at h; done)
   have hcs : cs.cert = t.tsa := by
     have := h; simp at this; rw [← this]
-  exact ⟨⟨by simpa using hso, Or.inr (by simpa using hd)⟩, hcs⟩
+  have hd' : t.content = .data ed ∧ t.mdOK = true := by
+    constructor
+    · apply Classical.byContradiction; intro hne; exact hd (Or.inl hne)
+    · cases hm : t.mdOK
+      · exact absurd (Or.inr hm) hd
+      · rfl
+  exact ⟨⟨by simpa using hso, hd'.2, Or.inr hd'.1⟩, hcs⟩
 
 theorem signWith_ok {H g flow ed leaf o a} (h : (signWith H g flow ed leaf o).res = .ok a) :
     ∃ s t cs, o.res = .ok (s, t) ∧ a = ⟨ed, leaf, mkAttach flow t⟩ ∧ verifyAttach H g a = .ok cs := by
